@@ -64,6 +64,17 @@ class C06Oracle(worldprop.Oracle):
         if got != want:
             self.fail(idx, "the PROV-N text denotes another document", doc=di, feats=sorted(diagnose(d)),
                       got=dumps(got)[:700], want=dumps(want)[:700])
+        # the text serialize(format="provn") hands out is PROV-N output as well: read it too when it is another text
+        try:
+            text2 = d.serialize(format="provn")
+        except Exception as e:
+            self.fail(idx, "serialize(format='provn') raised", doc=di, exc=repr(e)[:300], feats=sorted(diagnose(d)))
+            return
+        if text2 != text:
+            got2 = spec_read(text2)
+            if got2 == ["none"] or canon_content(got2) != want:
+                self.fail(idx, "the PROV-N text written by serialize(format='provn') denotes another document (or does not parse)",
+                          doc=di, feats=sorted(diagnose(d)), got=dumps(got2)[:700], want=dumps(want)[:700])
 
 
 def classify(f, ops):
@@ -82,6 +93,8 @@ def classify(f, ops):
 def run(tier, seed, log, model_runs=True, enlarged=False):
     from harness import progs
     sweep = progs.string_sweep(['a', '"', '\\', '\n', "'"], 4 if tier == "quick" else 5)
+    # lines that hold white space only, lines that end in white space, CR LF line ends, inside multi-line strings
+    sweep = sweep + ["a\n    \nb", "a\n\t\nb", "x\r\n\r\ny", "trail  \nnext", "\n \n", " \n \n ", "a\n\n\nb", "tab\t\n\tend", "a\n  \"q\"  \n"]
     return worldprop.run(PROP, tier, seed, log, model_runs, enlarged, C06Oracle, ["provn", "mixed"],
                          n_quick=140, n_thorough=2500, classify=classify, nontrivial=c01.nontrivial,
                          ops_range_quick=(6, 20), ops_range_thorough=(8, 36),
@@ -92,7 +105,8 @@ def run(tier, seed, log, model_runs=True, enlarged=False):
                                    "equal the strict content of the document (formal arguments positionally); the model's "
                                    "text is compared with the implementation's at token level; non-trivial = >=2 records"
                                    "; fixed programs: every string over {a, double quote, backslash, newline, single quote} up to "
-                                   "length 4 (thorough: 5) as a plain and as a language-tagged value",
+                                   "length 4 (thorough: 5), and multi-line strings with white-space-only lines, trailing white space and CR LF line ends, as a plain and as a language-tagged value; "
+                                   "the text serialize(format='provn') returns is read as well whenever it is not the get_provn() text",
                          extra_cases=progs.string_sweep_programs(sweep) + progs.scoping_programs(("ExportProvn",)) + progs.value_grid_programs(("ExportProvn",)) + progs.subtype_programs(("ExportProvn",)) + progs.equal_values_programs(("ExportProvn",)),
                          theorem_note="C06_* over Provn.escape_provn / ProvnSpec.short_string, long_string")
 
